@@ -191,7 +191,8 @@ def oracle(doc, genes):
             is_left = any(isinstance(e[0], str) and e[0] in gene.pseudogenes and str(e[1]).endswith("-") for e in a["mutations"])
             got = gene.get_allele(nm)
             owners = [an for an, al in gene.alleles.items() if nm in al.minors or gene.removed.get(nm) in al.minors]
-            if is_left:
+            # a left fusion that carries a function-altering variant of its own is a database allele like any other
+            if is_left and not any(len(e) > 3 and e[3] == "functional" for e in a["mutations"]):
                 continue
             if got is None:
                 why.append(f"{tag}: database allele {nm} is not reachable by name")
@@ -248,6 +249,24 @@ def collision_db(r, force_triple=False):
     name = doc["name"]
     als = doc["alleles"]
     plain = [k for k, v in als.items() if v["mutations"] and all(isinstance(e[0], int) for e in v["mutations"])]
+    # one left-fusion structure shared by the bare fusion allele and by alleles with a function-altering variant of their
+    # own (in the retained part or in the part the pseudogene replaces): they stay database alleles of their own
+    seq_f = doc["reference"]["seq"]
+    lefts = [k for k, v in als.items() if len(v["mutations"]) == 1 and isinstance(v["mutations"][0][0], str) and str(v["mutations"][0][1]).endswith("-")]
+    if lefts and r.random() < 0.7:
+        src = r.choice(lefts)
+        base = src.split("*")[1].split(".")[0]
+        L_f = len(seq_f)
+        lo_f = L_f // 2 + 2 if len(doc["structure"]["genes"]) > 1 else 3
+        used_f = {e[0] + d_ for a_ in als.values() for e in a_["mutations"] if isinstance(e[0], int) for d_ in range(-3, 5)}
+        cand_f = [q for q in range(lo_f, L_f - 4) if q not in used_f]
+        for j_ in range(r.randint(1, 2)):
+            if not cand_f:
+                break
+            q = r.choice(cand_f)
+            cand_f = [x for x in cand_f if abs(x - q) > 4]
+            als[f"{name}*{base}.{70 + j_}"] = {"mutations": [list(als[src]["mutations"][0]),
+                                                            [q, f"{seq_f[q - 1]}>{r.choice([c for c in 'ACGT' if c != seq_f[q - 1]])}", "-", "functional"]]}
     # duplicate variant sets under names that sort differently naturally / lexicographically
     for _ in range(r.randint(0, 3)):
         if not plain:
